@@ -11,11 +11,8 @@ FILTER_EXC = {
     ("hwloc__xml_import_object", "HWLOC_OBJ_TYPE_MAX"): "placeholder type: the real type is read from the attributes and filtered before insertion by hwloc__xml_import_object itself",
     ("hwloc_look_pci", "type"): "type is PCI_DEVICE or BRIDGE, each tested just above (subtype-important / type filter)",
     ("hwloc_linux_knl_add_cluster", "HWLOC_OBJ_L3CACHE"): "created only when hwdata.mcdram_cache_size > 0, which the KNL quirk zeroes when the cache type is filtered out",
-    ("read_node_mscaches", "HWLOC_OBJ_MEMCACHE"): "called only under need_memcaches = hwloc_filter_check_keep_object_type(MEMCACHE)",
     ("look_sysfscpu", "HWLOC_OBJ_GROUP"): "clusterset is read only when hwloc_filter_check_keep_object_type(GROUP) holds (line ~5146); NULL otherwise",
     ("look_sysfscpu", "HWLOC_OBJ_DIE"): "dieset is read only when hwloc_filter_check_keep_object_type(DIE) holds; NULL otherwise",
-    ("hwloc_linux_add_os_device", "HWLOC_OBJ_OS_DEVICE"): "OS-device lookups are dispatched only when the OS_DEVICE filter is not KEEP_NONE (ofilter in the linuxfs I/O phase)",
-    ("hwloc__get_firmware_dmi_memory_info_one", "HWLOC_OBJ_MISC"): "dispatched only when the Misc filter is not KEEP_NONE (mfilter in the linuxfs I/O phase)",
     ("hwloc_linuxfs_pci_look_pcidevices", "type"): "type is PCI_DEVICE or BRIDGE, each tested just above (subtype-important / get_type_filter)",
 }
 DISC_UNITS = ["topology-linux.c", "topology-x86.c", "topology-hardwired.c", "pci-common.c", "topology-pci.c", "topology.c", "topology-synthetic.c", "topology-xml.c", "distances.c", "topology-noos.c"]
